@@ -71,6 +71,10 @@ void FeatureChecker::visitGuard(expression_t& guard)
     case Constants::GE:
     case Constants::GT:
         for (size_t i = 0; i < guard.get_size(); ++i) {
+            if (guard.get(i).get_kind() == Constants::RATE)
+                return;  // a rate equation, judged by isRateDisallowedInSymbolic
+        }
+        for (size_t i = 0; i < guard.get_size(); ++i) {
             if (guard.get(i).uses_fp())
                 supported_methods.symbolic = false;
         }
@@ -107,6 +111,9 @@ void FeatureChecker::visitLocation(location_t& location)
         return;
     if (isRateDisallowedInSymbolic(invariant))
         supported_methods.symbolic = false;
+    // an invariant may compare a clock with a floating-point value just like a guard
+    auto inv = invariant;
+    visitGuard(inv);
 }
 
 /**
